@@ -60,6 +60,17 @@ class Setup:
                 return False
         return all(re.match(r"^(cp|py)(\d)(\d*)$", t) for t in pv)
 
+    _SYS_TAGS = None
+
+    @classmethod
+    def _supported_here(cls, c):
+        import packaging.tags
+        if cls._SYS_TAGS is None:
+            cls._SYS_TAGS = {(t.interpreter, t.abi, t.platform) for t in packaging.tags.sys_tags()}
+        pys = getattr(c.py_version, "py_versions", None) or []
+        abis = (c.abi or "none").split(".")
+        return any((p, a, pl) in cls._SYS_TAGS for p in pys for a in abis for pl in (c.platforms or []))
+
     def facts(self, i, c):
         R = self.R
         tags_ok = R.check_usability(None, c, has_equality=True, allow_prereleases=True) is None
@@ -68,6 +79,10 @@ class Setup:
         # another implementation is not installable here, whatever the code says
         if tags_ok and c.type == R.DistributionType.WHEEL and self._foreign_python(c):
             tags_ok = False
+        # ... and the other way round: a wheel one of whose tag triples is in the interpreter's own supported-tag list
+        # (packaging.tags.sys_tags) is installable here
+        if not tags_ok and c.type == R.DistributionType.WHEEL and self._supported_here(c):
+            tags_ok = True
         return {
             "name_ok": self.norm(c.name) == self.norm(self.req.project_name),
             "is_pre": bool(c.version.is_prerelease),
